@@ -60,9 +60,11 @@ def cbmc_refine(qfile, entry, hdefs, u0, umax, timeout, mem_gb=12, extra=()):
         other = [f for f in fails if '.unwind.' not in f[0]]
         mm = re.search(r'\*\* (\d+) of (\d+) failed', out)
         props = int(mm.group(2)) if mm else 0
-        if other or not unw:
+        if not unw:
             return dict(status='FAILED' if other else 'SUCCESS', fails=other, props=props, bounds=bounds,
                         wall=time.time() - t0, iters=it, cmd=cmd)
+        # unwinding assertions still fail: refine the bounds first (also when another property already fails, so that the
+        # counterexample we extract later is within the final bounds); give up refining when a bound is exhausted
         exhausted = []
         for pid, desc in unw:
             fn, n = pid.rsplit('.unwind.', 1)
@@ -71,6 +73,8 @@ def cbmc_refine(qfile, entry, hdefs, u0, umax, timeout, mem_gb=12, extra=()):
             if cur >= umax: exhausted.append((pid, 'loop bound %d exhausted: %s' % (umax, desc)))
             else: bounds[key] = min(umax, cur * 2 + 1)
         if exhausted:
+            if other:
+                return dict(status='FAILED', fails=other, props=props, bounds=bounds, wall=time.time() - t0, iters=it, cmd=cmd)
             return dict(status='BOUND', fails=exhausted, props=props, bounds=bounds, wall=time.time() - t0, iters=it, cmd=cmd)
 
 
